@@ -54,7 +54,7 @@ def run_replay(path, timeout=150):
     def _limit():
         import resource
 
-        lim = int(os.environ.get("VERIF_WORKER_MEM_GB", "6")) << 30
+        lim = int(os.environ.get("VERIF_WORKER_MEM_GB", "12")) << 30
         resource.setrlimit(resource.RLIMIT_AS, (lim, resource.getrlimit(resource.RLIMIT_AS)[1]))
 
     try:
